@@ -7,7 +7,7 @@ RULE = ("same (scheme, configuration, key, database) generator as C01; for every
         "searched: w[:-1], w[1:], w+NUL, w+w, w+'x', first/last byte with one flipped bit, case-swapped, the maximum-length "
         "keyword and 3 hashed random ones, interleaved with searches for present keywords; the empty byte string (a loud refusal is "
         "tolerated, a non-empty answer is not); the first keyword again after the same scheme object and key have encrypted a second "
-        "database without it; and, for databases of one-byte keywords, every other one-byte keyword. Oracle: the call returns, the "
+        "database without it; that keyword searched alternately on TWO LIVE indexes built by one scheme object and key (stored in one, absent from the other); and, for databases of one-byte keywords, every other one-byte keyword. Oracle: the call returns, the "
         "result has the scheme's result type and length 0. Every case is non-trivial (it always contains adversarially close "
         "keywords; the per-family counts are in `classes`); distinct = distinct (scheme, config, sorted length profile, id layout).")
 ASSUMPTIONS = ["absent keywords are themselves valid keywords (non-empty, no leading NUL, within the length limit)",
